@@ -99,10 +99,39 @@ def main():
             for p, ls in r.get("lines", {}).items():
                 for l in ls:
                     print("   ", p, l[:260])
+    elif cmd == "import":
+        # import <srcdir> <newname>: confirm, copy under /verif/seeded/<newname>, augment meta.json
+        src, name = Path(sys.argv[2]), sys.argv[3]
+        c = confirm(src)
+        if not c["ok"]:
+            print("NOT CONFIRMED", json.dumps(c))
+            sys.exit(1)
+        dst = VERIF / "seeded" / name
+        dst.mkdir(parents=True, exist_ok=True)
+        for f in src.iterdir():
+            if f.is_file() and f.stat().st_size < 200_000:
+                shutil.copy(f, dst / f.name)
+        meta = json.loads((dst / "meta.json").read_text()) if (dst / "meta.json").exists() else {}
+        meta.setdefault("property", name[:3])
+        head = sh(["git", "-C", "/repo", "rev-parse", "--short", "HEAD"])[1].strip()
+        meta["confirmed"] = {"by": f"tools_seeded.py confirm (scratch worktree of /repo HEAD {head})",
+                             "tests": c["tests"].strip("= "), "demo_on_clean_tree": f"exit {c['demo_clean_rc']}",
+                             "demo_with_patch": f"exit {c['demo_patched_rc']}"}
+        meta["origin"] = sys.argv[4] if len(sys.argv) > 4 else "independent sub-agent given only the property record and a scratch worktree"
+        (dst / "meta.json").write_text(json.dumps(meta, indent=1))
+        print("imported", name)
     elif cmd == "table":
         rows = []
+        only = sys.argv[2:]
+        prev = {}
+        if only and (VERIF / "seeded" / "RESULTS.json").exists():
+            prev = {r[0]: r for r in json.load(open(VERIF / "seeded" / "RESULTS.json"))}
         for d in sorted((VERIF / "seeded").iterdir()):
             if not (d / "patch.diff").exists():
+                continue
+            if only and not any(o in d.name for o in only):
+                if d.name in prev:
+                    rows.append(tuple(prev[d.name]))
                 continue
             meta = json.loads((d / "meta.json").read_text()) if (d / "meta.json").exists() else {}
             r = check(d)
@@ -110,6 +139,10 @@ def main():
             hit = target in r["fired"]
             rows.append((d.name, target, "CAUGHT" if hit else ("undecided" if target in r["undecided"] else "MISSED"), r["fired"], r["undecided"]))
             print(f"{d.name:12s} target={target} {rows[-1][2]:9s} fired={r['fired']} undecided={r['undecided']}", flush=True)
+            if meta:
+                meta["checks_run"] = {"command": "tools_seeded.py check (all 20 quick checks on a scratch copy of /repo with the patch applied)",
+                                      "fired": r["fired"], "undecided": r["undecided"], "target_verdict": rows[-1][2]}
+                (d / "meta.json").write_text(json.dumps(meta, indent=1))
         json.dump(rows, open(VERIF / "seeded" / "RESULTS.json", "w"), indent=1)
 
 
